@@ -139,12 +139,8 @@ theorem emitted_pad {d : Bytes} {s s' : St} (hc : s.lastBytesBits < 8) (hv : Car
     ∧ s'.lastBytesBits = 0 ∧ s'.lastBytes = 0 := by
   have hp := pad_pending h
   have hz : s'.lastBytesBits = 0 ∧ s'.lastBytes = 0 := by
-    unfold injectBytePaddingBlock at h
-    simp only at h
-    split_all h
-    all_goals first
-      | (simp only [Out.ok.injEq] at h; subst h; exact ⟨rfl, rfl⟩)
-      | (simp at h)
+    obtain ⟨nx, rfl⟩ := pad_result h
+    exact ⟨rfl, rfl⟩
   refine ⟨?_, hz⟩
   have hlb' : s.lastBytes < 128 := Nat.lt_of_lt_of_le hv (by
     have : 2 ^ s.lastBytesBits ≤ 2 ^ 7 := Nat.pow_le_pow_right (by omega) (by omega)
